@@ -63,7 +63,8 @@ def rawPoints (h : Handle) (k : Int) : R (List Point) :=
   | some a => h.readPoints ((List.range a.n).map fun j => a.offset + 12 * j)
 
 /-- ⟦Whisper.fetchRawPoints⟧ : allocate `count` points, then fill them by the two-branch
-    loop.  Reading more than `count` is an index panic; fewer leaves zero points. -/
+    loop.  Reading more than `count` is an error (repaired: it was an index panic; it
+    happens only when the stored base interval is misaligned); fewer leaves zero points. -/
 def fetchRawPoints (h : Handle) (a : Arch) (fromI untilI : Nat) : R (List Point) := do
   let base ← h.baseInterval a
   let count := Int.tdiv (tsSub untilI fromI) a.step
@@ -76,7 +77,7 @@ def fetchRawPoints (h : Handle) (a : Arch) (fromI untilI : Nat) : R (List Point)
       let arcStart := a.offset
       let arcEnd := u32 ((arcStart : Int) + (u32 ((a.n : Int) * 12) : Int))
       offsRange fromOff arcEnd ++ offsRange arcStart untilOff
-  if offs.length > count.toNat then throw (.panic "index out of range")
+  if offs.length > count.toNat then throw (.err .invalid)
   let pts ← h.readPoints offs
   return pts ++ List.replicate (count.toNat - offs.length) ⟨0, zeroBits⟩
 
